@@ -197,13 +197,18 @@ class Gen:
             src, ex = r.choice(REGEXES)
             mods = list(r.choice(REGEX_MODS))
             flags = r.choice(["", "", "i", "s", "is"])
-            occ = [ex]
-            if "wide" in mods:
-                occ.append(wide(ex))
+            forms = [ex]
             if "nocase" in mods or "i" in flags:
-                occ.append(ex.upper())
-            if "fullword" in mods:
-                occ = [b" " + o + b" " for o in occ]
+                forms.append(ex.upper())
+            if "s" in flags and len(ex) > 2:
+                forms.append(ex[:len(ex) // 2] + b"\n" + ex[len(ex) // 2 + 1:])
+            occ = []
+            for fm in forms:
+                padded = b" " + fm + b" "
+                if "wide" not in mods or "ascii" in mods:
+                    occ.append(padded if ("fullword" in mods or "\\b" in src) else fm)
+                if "wide" in mods:
+                    occ.append(wide(padded))
             self.kinds.add("regex:" + ",".join(sorted(mods)) + "/" + flags)
             return "$%s = /%s/%s %s" % (name, src, flags, " ".join(mods)), occ
         h, inst = self.hex_string()
@@ -504,15 +509,76 @@ class C10(Prop):
                     self._assets.append((tag, open(p, "rb").read().hex()))
         return self._assets
 
+    # ------------------------------------------------------------ dependency catalogue
+    # One single-string (or single-condition) rule per rebuilt parameter, with inputs chosen so that the scan
+    # result changes when that parameter is flipped on the reloaded scanner.  Enumerated completely, always run.
+    CAT_REGEXES = [
+        # (source, base text, text where the `.` position holds a newline or None, what is rebuilt)
+        (r"\b[a-z]{3}\b", b"abc", None, "raw, word boundaries"),
+        (r"\b[a-c]+.[x-z]+\b", b"ab-xy", b"ab\nxy", "raw, word boundaries, dot"),
+        (r"\B[a-z]{2}\B", b"abcd", None, "raw, non-word boundaries"),
+        (r"[a-c]{2}.[x-z]{2}", b"ab-xy", b"ab\nxy", "raw, dot"),
+        (r"^[a-z]{3}.[0-9]", b"abc-1", b"abc\n1", "raw, anchor"),
+        (r"[a-z]+\d.\d", b"ab1-2", b"ab1\n2", "raw, classes"),
+        (r"fo+.bar", b"fooo-bar", b"fooo\nbar", "atom bar, reverse dfa"),
+        (r"bar.o+f", b"bar-ooof", b"bar\nooof", "atom bar, forward dfa"),
+        (r"a.+foo.b", b"aa-foo-b", b"aa\nfoo\nb", "greedy: reverse + full dfa"),
+        (r"x[a-c]+.yz\b", b"xab-yz", b"xab\nyz", "dfa + word boundary (custom wide runner)"),
+        (r"\bkey[a-c]{1,3}.val", b"keyab-val", b"keyab\nval", "dfa + leading word boundary"),
+    ]
+
+    def catalogue(self):
+        cases = []
+        for src, base, nl, what in self.CAT_REGEXES:
+            for flags in ("", "i", "s", "is"):
+                for mods in ([], ["wide"], ["ascii", "wide"], ["wide", "nocase"], ["nocase"]):
+                    texts = [base, base.upper(), base.title()]
+                    if nl:
+                        texts += [nl, nl.upper()]
+                    inputs = []
+                    for t in texts:
+                        for delim in (b" ", b"-"):
+                            padded = delim + t + delim
+                            inputs.append({"mem": (b"junk" + padded + b"end").hex()})
+                            inputs.append({"mem": (wide(b"zz" + padded + b"zz")).hex()})
+                            inputs.append({"mem": (b"\x01\x02" + wide(padded) + b"\xff").hex()})
+                        inputs.append({"mem": t.hex()})
+                        inputs.append({"mem": wide(t).hex()})
+                    rule = "rule cat { strings: $a = /%s/%s %s condition: $a }" % (src, flags, " ".join(mods))
+                    cases.append({"rules": [{"ns": None, "src": rule}], "csymbols": [], "params": {"compute_full_matches": True},
+                                  "profile": "speed", "inputs": inputs,
+                                  "variants": [{"params": {"compute_full_matches": True}, "api": "list"}], "ext": [],
+                                  "nvars": 1, "kinds": ["catalogue regex:%s/%s (%s)" % (",".join(mods), flags, what)],
+                                  "modules": [], "expect": "compiles"})
+        # condition regexes (Regex/meta): each flag decides the verdict of its own rule
+        conds = [('"ABx" matches /ab./i', 1), ('"abx" matches /ab./', 1), ('"a\\nb" matches /a.b/s', 1), ('"a\\nb" matches /a.b/', 0),
+                 ('"A\\nB" matches /a.b/is', 1), ('"A\\nB" matches /a.b/i', 0), ('"A\\nB" matches /a.b/s', 0),
+                 ('ext0 matches /x.z/i', 1), ('ext0 matches /x.z/s', 1)]
+        rules = [{"ns": None, "src": "rule c%d { condition: %s }" % (i, c)} for i, (c, _) in enumerate(conds)]
+        cases.append({"rules": rules, "csymbols": [{"name": "ext0", "bytes": b"X\nZ".hex()}], "params": {}, "profile": "speed",
+                      "inputs": [{"mem": "61"}], "variants": [{"params": {"include_not_matched": True}, "api": "list"}],
+                      "ext": [[{"name": "ext0", "bytes": b"xyz".hex()}], [{"name": "ext0", "bytes": b"x\nz".hex()}]],
+                      "nvars": 0, "kinds": ["catalogue condition regex flags"], "modules": [], "expect": "compiles"})
+        # text / hex strings under each profile (AcScan is rebuilt from the variables and the profile)
+        for profile in ("speed", "memory"):
+            rule = ('rule p { strings: $a = "needle" wide ascii nocase $b = { 6E 65 ?? 64 [1-3] 65 } $c = "dle" xor fullword '
+                    'condition: any of them }')
+            cases.append({"rules": [{"ns": None, "src": rule}], "csymbols": [], "params": {"compute_full_matches": True},
+                          "profile": profile, "inputs": [{"mem": (b"a NEEDLE needle " + wide(b"Needle") + b" nee.dxxe").hex()},
+                                                         {"mem": bytes(x ^ 7 for x in b" dle ").hex()}],
+                          "variants": [{"params": {"compute_full_matches": True}, "api": "list"}], "ext": [], "nvars": 3,
+                          "kinds": ["catalogue profile " + profile], "modules": [], "expect": "compiles"})
+        return cases
+
     def generate(self, ctx, rng, n):
         a = self.assets()
         cases = [Gen(rng.fork("c%d" % i)).case(a) for i in range(n)]
         # small rule sets first: the first violation reported is then the easiest to read
         cases.sort(key=lambda c: sum(len(r["src"]) for r in c["rules"]))
-        return cases
+        return self.catalogue() + cases
 
     def budget(self, tier):
-        return 320 if tier == "quick" else 5000
+        return 260 if tier == "quick" else 5000
 
     def corpus(self, ctx):
         out = []
